@@ -60,6 +60,56 @@ MUTANTS = [
              "    while not writing_queue.empty():\n        time.sleep(0.001)\n")]),
 ]
 
+MUTANTS += [
+    # ---------------------------------------------------------------- C17
+    ('c17_xl_futures_dropped', 'C17', 'crossline fan-out no longer collects its futures', [
+        (LD, "                       for chunk_num in range(self.shape_pad[0] // 4)]\n        self._raise_worker_exceptions(futures)\n",
+             "                       for chunk_num in range(self.shape_pad[0] // 4)]\n")]),
+    ('c17_catch_and_zero', 'C17', 'a failed range read in the fan-out leaves zeros', [
+        (LD, "        part = self._get_compressed_bytes(data_offset, length)\n        buffer[buffer_start: buffer_start + length] = part",
+             "        try:\n            part = self._get_compressed_bytes(data_offset, length)\n        except Exception:\n            return\n"
+             "        buffer[buffer_start: buffer_start + length] = part")]),
+    ('c17_pad_short_blob', 'C17', 'short remote download padded with zeros', [
+        (UT, "    return check_range_length(file.download_blob(offset=offset, length=length).readall(), offset, length)",
+             "    return file.download_blob(offset=offset, length=length).readall().ljust(length, b'\\0')")]),
+    ('c17_check_local_only', 'C17', 'length check only for local files', [
+        (UT, "    return check_range_length(file.download_blob(offset=offset, length=length).readall(), offset, length)",
+             "    return file.download_blob(offset=offset, length=length).readall()")]),
+    ('c17_first_future_only', 'C17', 'only the first future of a fan-out is checked', [
+        (LD, "        for future in futures:\n            future.result()", "        for future in futures[:1]:\n            future.result()")]),
+    ('c17_local_pool_20', 'C17', '20 workers also for local files (seek+read on one shared handle)', [
+        (LD, "        self.n_workers = 1 if self.local else 20", "        self.n_workers = 20")]),
+    ('c17_retry_keeps_partial', 'C17', 'one retry after a failed read, first attempt\'s partial state kept', [
+        (LD, "    def _insert_into_buffer(self, buffer, buffer_start, data_offset, length):\n        part = self._get_compressed_bytes(data_offset, length)",
+             "    def _insert_into_buffer(self, buffer, buffer_start, data_offset, length):\n        try:\n            part = self._get_compressed_bytes(data_offset, length)\n"
+             "        except IOError:\n            part = self._get_compressed_bytes(data_offset + length, length)")]),
+    ('c17_footer_int_unchecked', 'C17', 'single-value footer read bypasses the checked primitive', [
+        (RD, "                    buf = self.file.read_range(self.file, v + 4*index, 4)  # A 32-bit int is 4 bytes\n                    header[k] = np.frombuffer(buf, dtype=np.int32)[0]",
+             "                    if self.local:\n                        self.file.seek(v + 4*index)\n                        buf = self.file.read(4).ljust(4, b'\\0')\n"
+             "                    else:\n                        buf = self.file.read_range(self.file, v + 4*index, 4)\n"
+             "                    header[k] = np.frombuffer(buf, dtype=np.int32)[0]")]),
+    # ---------------------------------------------------------------- C18
+    ('c18_no_length_check_file', 'C18', 'local range reads return whatever came back', [
+        (UT, "    return check_range_length(file.read(length), offset, length)", "    return file.read(length)")]),
+    ('c18_only_empty_is_error', 'C18', 'only an empty result counts as a short read', [
+        (UT, "    if len(data) != length:", "    if len(data) == 0 and length > 0:")]),
+    ('c18_header_padded', 'C18', 'header block read tolerates a short file', [
+        (RD, "        self.headerbytes = self.file.read_range(self.file, 0, DISK_BLOCK_BYTES)\n",
+             "        try:\n            self.headerbytes = self.file.read_range(self.file, 0, DISK_BLOCK_BYTES)\n        except IOError:\n"
+             "            self.file.seek(0)\n            self.headerbytes = self.file.read(DISK_BLOCK_BYTES).ljust(DISK_BLOCK_BYTES, b'\\0')\n")]),
+    ('c18_footer_to_eof', 'C18', 'footer arrays read to EOF and cut, not by counted read', [
+        (RD, "                    buffer = self.file.read_range(self.file, offset, self.header_entry_length_bytes)\n                    values = np.frombuffer(buffer, dtype=np.int32)",
+             "                    if self.local:\n                        self.file.seek(offset)\n                        buffer = self.file.read()[:self.header_entry_length_bytes]\n"
+             "                        buffer = buffer[:len(buffer) - len(buffer) % 4]\n"
+             "                    else:\n                        buffer = self.file.read_range(self.file, offset, self.header_entry_length_bytes)\n"
+             "                    values = np.frombuffer(buffer, dtype=np.int32)")]),
+    ('c18_preload_unchecked', 'C18', 'preload reads the data section without length check', [
+        (LD, "            self.compressed_volume = self.file.read_range(self.file, self.data_start_bytes,\n                                                          self.compressed_data_diskblocks * self.block_bytes)",
+             "            if self.local:\n                self.file.seek(self.data_start_bytes)\n                self.compressed_volume = self.file.read(self.compressed_data_diskblocks * self.block_bytes)\n"
+             "            else:\n                self.compressed_volume = self.file.read_range(self.file, self.data_start_bytes,\n"
+             "                                                              self.compressed_data_diskblocks * self.block_bytes)")]),
+]
+
 
 def apply(mutant, root):
     for rel, old, new in mutant[3]:
